@@ -341,6 +341,48 @@ type RawState struct {
 	Legacy   bool // some record was not in the v1 format (values then come from Export)
 }
 
+// RawRecords returns the attestation and proposal records of one key as stored, normalised so that "no record"
+// and "a record saying nothing was signed" are the same ("unset").
+func (s *Stack) RawRecords(pub []byte) (string, string, error) {
+	db := s.StdRules.VerifStore().VerifDB()
+	get := func(action byte, unsetLen int) (string, error) {
+		key := append(append([]byte{}, pub...), action)
+		var val []byte
+		err := db.View(func(txn *badger.Txn) error {
+			item, err := txn.Get(key)
+			if err != nil {
+				return err
+			}
+			val, err = item.ValueCopy(nil)
+			return err
+		})
+		if errors.Is(err, badger.ErrKeyNotFound) {
+			return "unset", nil
+		}
+		if err != nil {
+			return "", err
+		}
+		if len(val) == unsetLen && val[0] == 1 {
+			all := true
+			for _, b := range val[1:] {
+				if b != 0xff {
+					all = false
+				}
+			}
+			if all {
+				return "unset", nil
+			}
+		}
+		return fmt.Sprintf("%x", val), nil
+	}
+	att, err := get(0x02, 17)
+	if err != nil {
+		return "", "", err
+	}
+	prop, err := get(0x03, 9)
+	return att, prop, err
+}
+
 // ReadState reads the records of one key straight from the database.
 func (s *Stack) ReadState(pub []byte) (RawState, error) {
 	var st RawState
